@@ -49,7 +49,7 @@ func (c06) Runs(t Tier) int {
 }
 func (c06) RecordWidths() map[string]int { return nil }
 func (c06) RequiredProbes() []string {
-	return []string{"file-entity", "dir-entity", "via-path-selector", "preload-reifier", "preload-selector", "entity-selector", "fault-on-last-block", "fault-on-interior", "kth-load", "subset-fault", "entries-have-blocks"}
+	return []string{"file-entity", "dir-entity", "plain-dir-entity", "via-path-selector", "preload-reifier", "preload-selector", "entity-selector", "fault-on-last-block", "fault-on-interior", "kth-load", "subset-fault", "entries-have-blocks"}
 }
 
 type c06Scenario struct {
@@ -64,7 +64,9 @@ type c06Scenario struct {
 func (c06) Run(ts *tape.Set, tier Tier) *Result {
 	res := &Result{}
 	shape := ts.T("shape")
-	isDir := shape.Pick(1, 1) == 1
+	kindPick := shape.Pick(4, 4, 1)
+	isDir := kindPick == 1
+	isPlainDir := kindPick == 2
 	access := shape.Intn(3) // 0 preload reifier, 1 preload selector, 2 entity selector
 	viaPath := shape.Intn(3) == 2
 	if access == 0 {
@@ -79,7 +81,30 @@ func (c06) Run(ts *tape.Set, tier Tier) *Result {
 	var interior map[string]bool
 	sc := &c06Scenario{}
 	res.Scenario = sc
-	if isDir {
+	if isPlainDir {
+		// a basic directory is a single block: the entity is that block and
+		// none of its entries' blocks (each entry is a small multi-block file)
+		n := 1 + shape.Intn(12)
+		ents := map[string]cid.Cid{}
+		sizes := map[string]uint64{}
+		for i := 0; i < n; i++ {
+			fs := gen.DrawFileSpec(shape, gen.FileOpts{MaxSize: 300})
+			fc, _, err := gen.WriteFile(st, fs)
+			if err != nil {
+				res.Skipped, res.SkipReason = true, err.Error()
+				return res
+			}
+			nm := fmt.Sprintf("entry %d", i)
+			ents[nm], sizes[nm] = fc, 1
+		}
+		root := gen.WritePlainDir(st, ents, sizes, shape.Intn(2) == 0)
+		entity, want, order = root, map[string]bool{root.KeyString(): true}, []cid.Cid{root}
+		interior = map[string]bool{}
+		sc.Kind, sc.Spec = "plain-dir", fmt.Sprintf("entries=%d (each a file DAG)", n)
+		res.probe("plain-dir-entity")
+		res.probe("entries-have-blocks")
+		res.NonTrivial = true
+	} else if isDir {
 		maxN := 120
 		if tier == Thorough {
 			maxN = 500
